@@ -2084,8 +2084,15 @@ async fn exec_op(ctx: &Ctx, t: &mut Task, op: &Op) {
             if let Some(i) = pick(*r, t.recvs.len()) {
                 let h = &mut t.recvs[i];
                 let now = ctx.now();
+                // (nothing is announced on a connection this side has already seen lost, e.g. by idle timeout:
+                // quinn accepts the call, but no STOP_SENDING can leave any more)
+                let lost = ctx.m.borrow().conns[ci].sides[side].first_err.is_some();
                 if h.r.stop(VarInt::from_u32(*code as u32)).is_ok() {
-                    ctx.m.borrow_mut().stream(h.key).stops.push((*code as u64, now, false));
+                    if !lost {
+                        ctx.m.borrow_mut().stream(h.key).stops.push((*code as u64, now, false));
+                    } else {
+                        ctx.label("stop-on-lost-connection");
+                    }
                     h.terminal = true;
                     h.no_implicit_stop = true;
                     ctx.label("stop");
